@@ -229,12 +229,110 @@ def rule_r3(F, rep):
     rep.floor(R, rep.rules[R]["obligations"], 100, "dispatch rows")
 
 
+def rule_r5(F, rep):
+    R = rep.rule("C02.R5", "`&&` and `||` short-circuit and compute the boolean connectives: a false left operand of `&&` (true of "
+                 "`||`) is the result without evaluating the right operand; otherwise the right operand is evaluated and combined "
+                 "by the operator's own truth table")
+    def pushes(o, stack):
+        return [m[2] for m in o[1] if m[0] == "push" and m[1] == stack]
+
+    def short(x):
+        if isinstance(x, tuple):
+            pay = dict(x[1]) if len(x) > 1 and isinstance(x[1], tuple) else {}
+            return (x[0], pay.get(0)) if x[0] == "Bool" else x[0]
+        return x
+    for st, op, absorbing in (("LogicAnd", "LogicAnd", 0), ("LogicOr", "LogicOr", 1)):
+        for lhs in (0, 1):
+            m = None
+            outs = em.walk_run_arm(F, rep, st, values=[("Bool", lhs)], want_calls=False, full=True)
+            res = set()
+            for o in outs:
+                if o[0].startswith("diverge"):
+                    continue
+                res.add((tuple(short(x) for x in pushes(o, "value_stack")), tuple(short(x) for x in pushes(o, "state_stack"))))
+            if lhs == absorbing:
+                exp = {((("Bool", absorbing),), ())}
+            else:
+                exp = {((), ("BinaryOp", "Expr"))}
+            ok = res == exp
+            rep.ob(R, "%s|lhs=%d" % (st, lhs), ok, {"operator": st, "lhs": bool(lhs), "outcome": sorted(map(str, res))})
+            if not ok:
+                rep.violation(R, "run|%s|lhs=%d" % (st, lhs), "%s with left operand %s: %s, expected %s (short-circuit / evaluate the "
+                              "right operand and combine)" % (st, bool(lhs), sorted(map(str, res)), sorted(map(str, exp))))
+    fn = F.fn("<%s>::do_binary_op" % em.EVAL)
+    body = fn.body
+    opl = [l for l in range(2, body.argc + 1) if body.local_ty(l)["k"] == "adt" and body.local_ty(l)["d"] == BINOP][0]
+    for op, f in (("LogicAnd", lambda a, b: a and b), ("LogicOr", lambda a, b: a or b)):
+        for a in ((1,) if op == "LogicAnd" else (0,)):     # the other value of the left operand was short-circuited
+            for b in (0, 1):
+                outs = em.walk_handler(F, rep, fn, values=[("Bool", b), ("Bool", a)], env={str(opl): ("var", BINOP, op)}, want_calls=False, full=True)
+                res = set()
+                for o in outs:
+                    if o[0] != "return" or em.is_err_return(o):
+                        res.add("error")
+                        continue
+                    res.add(tuple(short(x) for x in pushes(o, "value_stack")))
+                exp = {(("Bool", int(bool(f(a, b)))),)}
+                ok = res == exp
+                rep.ob(R, "do_binary_op|%s|%d%d" % (op, a, b), ok, {"op": op, "lhs": a, "rhs": b, "result": sorted(map(str, res))})
+                if not ok:
+                    rep.violation(R, "do_binary_op|%s|%d%d" % (op, a, b), "%s on (%s, %s) gives %s, expected %s"
+                                  % (op, bool(a), bool(b), sorted(map(str, res)), sorted(map(str, exp))), fn.loc)
+
+
+def rule_r6(F, rep):
+    from . import cfg as _cfg
+    R = rep.rule("C02.R6", "division and remainder by zero are errors: in do_binary_op the f64 `/` and `%` on two numbers are "
+                 "reached only behind a test of the divisor against zero whose zero edge reports DivByZero")
+    fn = F.fn("<%s>::do_binary_op" % em.EVAL)
+    body = fn.body
+    n = 0
+    zero_tests = []
+    for bb, si, st in body.assigns():
+        rv = st["rv"]
+        if rv["k"] == "binop" and rv["op"] in ("Eq", "Ne"):
+            for x in (rv["a"], rv["b"]):
+                if x["k"] == "const" and body.ty(x["t"])["s"] == "f64" and str(x.get("s", "")).startswith(("0.0", "0f", "0_f", "-0.0", "0E0", "0e0")):
+                    zero_tests.append((bb, st["p"]["l"], rv["op"]))
+    succ = body.succ_map()
+    for bb, si, st in body.assigns():
+        rv = st["rv"]
+        if rv["k"] == "binop" and rv["op"] in ("Div", "Rem") and body.ty(st["p"]["t"])["s"] == "f64":
+            n += 1
+            # some zero test must edge-dominate this block through its non-zero edge
+            guarded = False
+            for zb, zl, zop in zero_tests:
+                t = body.blocks[zb]["t"]
+                if t["k"] != "switch":
+                    continue
+                # Eq: value 0 (false) edge = non-zero divisor; Ne: otherwise edge
+                nz = [tb for v, tb in t["arms"] if v == 0] if zop == "Eq" else [t["else"]]
+                z = [t["else"]] if zop == "Eq" else [tb for v, tb in t["arms"] if v == 0]
+                if not nz:
+                    continue
+                reach_wo = _cfg.reachable(succ, [0], blocked_edges=[(zb, nz[0])])
+                if bb not in reach_wo:
+                    # and the zero edge leads to DivByZero
+                    zr = _cfg.reachable(succ, z)
+                    dz = any(s2["k"] == "assign" and s2["rv"]["k"] == "agg" and s2["rv"].get("adt") == em.ERRKIND and s2["rv"]["v"] == "DivByZero"
+                             for b2 in zr for s2 in body.blocks[b2]["s"])
+                    if dz:
+                        guarded = True
+            rep.ob(R, "do_binary_op|%s@%s" % (rv["op"], body.span(st["sp"]).rsplit(":", 2)[-2]), guarded, {"op": rv["op"], "site": body.span(st["sp"])})
+            if not guarded:
+                rep.violation(R, "do_binary_op|%s|unguarded" % rv["op"], "the f64 %s in do_binary_op is not behind a divisor-is-zero test "
+                              "whose zero edge reports DivByZero" % rv["op"], body.span(st["sp"]))
+    rep.floor(R, n, 2, "float division / remainder sites")
+
+
 def run(F, rep, tier):
     rule_r1(F, rep)
     rule_r2(F, rep)
     rule_r3(F, rep)
     from . import objflags
     objflags.rule(F, rep, "C02.R4")
+    rule_r5(F, rep)
+    rule_r6(F, rep)
     from . import visibility
     visibility.rule(F, rep, "C07.R4")
     rep.assume("value-level semantics (arithmetic results, environments, defaults, inheritance) are not decided: "
